@@ -427,6 +427,326 @@ func (c *skCtx) ret(r *ast.ReturnStmt) string {
 	return c.unknown(r)
 }
 
+
+// ---- encoders ------------------------------------------------------------------------------------------------------
+
+type encCtx struct {
+	skCtx
+	acc string // slice path: the variable the encoding is appended to (`o` / `bits`); stream path: the *msgp.Writer
+	par string // slice path: the parameter (`b` for generated code, = acc for hand-written code)
+}
+
+func (c *encCtx) szName(e ast.Expr) bool { return isIdent(e, "sz") || isIdent(e, "size") }
+
+// the body of an error check: `{ return }`, `{ err = msgp.WrapError(err, …); return }`, `{ return [acc,] err|WrapError(err,…) }`
+func (c *encCtx) isErrCheck(s ast.Stmt) bool {
+	ifs, ok := s.(*ast.IfStmt)
+	if !ok || ifs.Init != nil || ifs.Else != nil || !isErrNotNil(ifs.Cond) {
+		return false
+	}
+	l := ifs.Body.List
+	if len(l) == 2 {
+		as, isAs := l[0].(*ast.AssignStmt)
+		if !isAs || len(as.Lhs) != 1 || len(as.Rhs) != 1 || !isIdent(as.Lhs[0], "err") {
+			return false
+		}
+		call, isCall := as.Rhs[0].(*ast.CallExpr)
+		if !isCall || !isSel(call.Fun, "msgp", "WrapError") || len(call.Args) < 1 || !isIdent(call.Args[0], "err") {
+			return false
+		}
+		l = l[1:]
+	}
+	if len(l) != 1 {
+		return false
+	}
+	r, isR := l[0].(*ast.ReturnStmt)
+	if !isR {
+		return false
+	}
+	if len(r.Results) == 0 {
+		return true // named results: o, err as they are
+	}
+	if c.stream {
+		return c.returnsErr(r)
+	}
+	if len(r.Results) != 2 || !isIdent(r.Results[0], c.acc) {
+		return false
+	}
+	last := r.Results[1]
+	if isIdent(last, "err") {
+		return true
+	}
+	call, isCall := last.(*ast.CallExpr)
+	return isCall && isSel(call.Fun, "msgp", "WrapError") && len(call.Args) >= 1 && isIdent(call.Args[0], "err")
+}
+
+// encCall: the right-hand side of an append / write.  kind: "put" (prim, field), "nil", "hdr", "raw" (byte)
+func (c *encCtx) encCall(e ast.Expr) (kind, prim, field string, fallible, ok bool) {
+	call, isCall := e.(*ast.CallExpr)
+	if !isCall {
+		return
+	}
+	if id, isId := call.Fun.(*ast.Ident); isId && id.Name == "append" && !c.stream {
+		if len(call.Args) == 2 && isIdent(call.Args[0], c.acc) {
+			if bl, isBl := call.Args[1].(*ast.BasicLit); isBl && bl.Kind == token.INT {
+				if v, err := strconv.ParseUint(bl.Value, 0, 8); err == nil {
+					return "raw", fmt.Sprint(v), "", false, true
+				}
+			}
+		}
+		return
+	}
+	se, isSe := call.Fun.(*ast.SelectorExpr)
+	if !isSe {
+		return
+	}
+	name := se.Sel.Name
+	args := call.Args
+	if f, isF := c.recvField(se.X); isF { // nested encoder
+		want := "MarshalMsg"
+		if c.stream {
+			want = "EncodeMsg"
+		}
+		if name != want || len(args) != 1 || !isIdent(args[0], c.acc) {
+			return
+		}
+		switch strings.TrimSpace(c.ftypes[f]) {
+		case "*MessageOptions":
+			return "put", ".options", f, true, true
+		case "EntryList":
+			return "put", ".entryList", f, true, true
+		}
+		return
+	}
+	var table map[string]string
+	if c.stream {
+		if !isIdent(se.X, c.acc) {
+			return
+		}
+		table = map[string]string{"WriteString": ".str", "WriteInt64": ".int64", "WriteIntf": ".intf", "WriteExtension": ".eventTime",
+			"WriteBytes": ".bin", "WriteNil": "nil", "WriteArrayHeader": "hdr", "Append": "raw"}
+	} else {
+		if !isIdent(se.X, "msgp") || len(args) == 0 || !isIdent(args[0], c.acc) {
+			return
+		}
+		args = args[1:]
+		table = map[string]string{"AppendString": ".str", "AppendInt64": ".int64", "AppendIntf": ".intf", "AppendExtension": ".eventTime",
+			"AppendBytes": ".bin", "AppendNil": "nil", "AppendArrayHeader": "hdr"}
+	}
+	p, found := table[name]
+	if !found {
+		return
+	}
+	switch p {
+	case "nil":
+		if len(args) == 0 {
+			return "nil", "", "", false, true
+		}
+		return
+	case "raw":
+		if len(args) == 1 {
+			if bl, isBl := args[0].(*ast.BasicLit); isBl && bl.Kind == token.INT {
+				if v, err := strconv.ParseUint(bl.Value, 0, 8); err == nil {
+					return "raw", fmt.Sprint(v), "", false, true
+				}
+			}
+		}
+		return
+	case "hdr": // the count variable, possibly converted: sz / uint32(size)
+		if len(args) != 1 {
+			return
+		}
+		a := args[0]
+		if cv, isCv := a.(*ast.CallExpr); isCv && isIdent(cv.Fun, "uint32") && len(cv.Args) == 1 {
+			a = cv.Args[0]
+		}
+		if c.szName(a) {
+			return "hdr", "", "", false, true
+		}
+		return
+	case ".eventTime":
+		if len(args) != 1 {
+			return
+		}
+		ue, isU := args[0].(*ast.UnaryExpr)
+		if !isU || ue.Op != token.AND {
+			return
+		}
+		f, isF := c.recvField(ue.X)
+		if !isF || strings.TrimSpace(c.ftypes[f]) != "EventTime" {
+			return
+		}
+		return "put", p, f, true, true
+	default:
+		if len(args) != 1 {
+			return
+		}
+		f, isF := c.recvField(args[0])
+		if !isF {
+			return
+		}
+		return "put", p, f, p == ".intf", true
+	}
+}
+
+func (c *encCtx) nilTest(e ast.Expr) (field string, eq bool, ok bool) {
+	be, isBe := e.(*ast.BinaryExpr)
+	if !isBe || (be.Op != token.EQL && be.Op != token.NEQ) || !isIdent(be.Y, "nil") {
+		return "", false, false
+	}
+	f, isF := c.recvField(be.X)
+	if !isF || !strings.HasPrefix(strings.TrimSpace(c.ftypes[f]), "*") {
+		return "", false, false
+	}
+	return f, be.Op == token.EQL, true
+}
+
+func (c *encCtx) block(ss []ast.Stmt, top bool) []string {
+	var out []string
+	for i := 0; i < len(ss); i++ {
+		s := ss[i]
+		switch st := s.(type) {
+		case *ast.DeclStmt:
+			gd, ok := st.Decl.(*ast.GenDecl)
+			plain := ok && gd.Tok == token.VAR
+			if plain {
+				for _, sp := range gd.Specs {
+					if vs, isVs := sp.(*ast.ValueSpec); !isVs || len(vs.Values) != 0 {
+						plain = false
+					}
+				}
+			}
+			if !plain {
+				out = append(out, c.unknown(s))
+			}
+		case *ast.AssignStmt:
+			if len(st.Rhs) != 1 {
+				out = append(out, c.unknown(s))
+				continue
+			}
+			// sz = N / size := N
+			if len(st.Lhs) == 1 && c.szName(st.Lhs[0]) {
+				if v, ok := natLit(st.Rhs[0]); ok {
+					out = append(out, ".setSz "+v)
+					continue
+				}
+				out = append(out, c.unknown(s))
+				continue
+			}
+			// o = msgp.Require(b, z.Msgsize())
+			if !c.stream && len(st.Lhs) == 1 && isIdent(st.Lhs[0], c.acc) && st.Tok == token.ASSIGN {
+				if call, isCall := st.Rhs[0].(*ast.CallExpr); isCall && isSel(call.Fun, "msgp", "Require") && len(call.Args) == 2 && isIdent(call.Args[0], c.par) {
+					if sz, isSz := call.Args[1].(*ast.CallExpr); isSz && len(sz.Args) == 0 {
+						if se, isSe := sz.Fun.(*ast.SelectorExpr); isSe && isIdent(se.X, c.recv) && se.Sel.Name == "Msgsize" {
+							out = append(out, ".require")
+							continue
+						}
+					}
+				}
+			}
+			kind, prim, field, fallible, ok := c.encCall(st.Rhs[0])
+			if !ok {
+				out = append(out, c.unknown(s))
+				continue
+			}
+			// left-hand sides: slice: acc [, err]; stream: err
+			hasErr := false
+			lhsOK := false
+			if c.stream {
+				lhsOK = len(st.Lhs) == 1 && isIdent(st.Lhs[0], "err")
+				hasErr = true
+			} else if len(st.Lhs) == 1 {
+				lhsOK = isIdent(st.Lhs[0], c.acc) && st.Tok == token.ASSIGN
+			} else if len(st.Lhs) == 2 {
+				lhsOK = isIdent(st.Lhs[0], c.acc) && isIdent(st.Lhs[1], "err") && st.Tok == token.ASSIGN
+				hasErr = true
+			}
+			if !lhsOK || (!c.stream && hasErr != fallible) {
+				out = append(out, c.unknown(s))
+				continue
+			}
+			chk := ".noerr"
+			if hasErr {
+				if i+1 < len(ss) && c.isErrCheck(ss[i+1]) {
+					chk = ".checked"
+					i++
+				} else if c.stream {
+					out = append(out, c.unknown(s)) // a write whose error is not looked at
+					continue
+				} else {
+					chk = ".unchecked"
+				}
+			}
+			switch kind {
+			case "raw":
+				out = append(out, ".raw "+prim)
+			case "nil":
+				out = append(out, ".putNil")
+			case "hdr":
+				out = append(out, ".hdrSz")
+			case "put":
+				out = append(out, fmt.Sprintf(".put %s %s %s", prim, fld(field), chk))
+			}
+		case *ast.IfStmt:
+			if st.Init != nil {
+				out = append(out, c.unknown(s))
+				continue
+			}
+			if f, eq, ok := c.nilTest(st.Cond); ok {
+				els := []string{}
+				if st.Else != nil {
+					eb, isBlock := st.Else.(*ast.BlockStmt)
+					if !isBlock {
+						out = append(out, c.unknown(s))
+						continue
+					}
+					els = c.block(eb.List, false)
+				}
+				ctor := ".ifNotNil"
+				if eq {
+					ctor = ".ifNil"
+				}
+				out = append(out, fmt.Sprintf("%s %s [%s] [%s]", ctor, fld(f), strings.Join(c.block(st.Body.List, false), ", "), strings.Join(els, ", ")))
+				continue
+			}
+			if be, isBe := st.Cond.(*ast.BinaryExpr); isBe && be.Op == token.EQL && c.szName(be.X) && st.Else == nil {
+				if v, ok := natLit(be.Y); ok {
+					out = append(out, fmt.Sprintf(".ifSzEq %s [%s]", v, strings.Join(c.block(st.Body.List, false), ", ")))
+					continue
+				}
+			}
+			out = append(out, c.unknown(s))
+		case *ast.ReturnStmt:
+			// `return` (named results), `return bits, err`, `return nil`: the accumulated bytes and the current err.
+			// `return nil` is the same when every write was checked, which the stream rules above guarantee.
+			good := len(st.Results) == 0 ||
+				(!c.stream && len(st.Results) == 2 && isIdent(st.Results[0], c.acc) && isIdent(st.Results[1], "err")) ||
+				(c.stream && len(st.Results) == 1 && (isIdent(st.Results[0], "nil") || isIdent(st.Results[0], "err")))
+			if good && top && i == len(ss)-1 {
+				out = append(out, ".ret")
+			} else {
+				out = append(out, c.unknown(s))
+			}
+		default:
+			out = append(out, c.unknown(s))
+		}
+	}
+	return out
+}
+
+func encoderSkeleton(fset *token.FileSet, repo string, fd *ast.FuncDecl, goName, m string, ft map[string]string) []string {
+	if fd == nil || fd.Body == nil || fd.Type.Params == nil || len(fd.Type.Params.List) != 1 || len(fd.Type.Params.List[0].Names) != 1 {
+		return []string{".unknown \"method not found\""}
+	}
+	par := fd.Type.Params.List[0].Names[0].Name
+	c := &encCtx{skCtx: skCtx{fset: fset, recv: recvNameOf(fd), in: par, stream: m == "EncodeMsg", ftypes: ft}, acc: par, par: par}
+	// generated code: named results (o []byte, err error); the encoding is appended to `o`
+	if m == "MarshalMsg" && fd.Type.Results != nil && len(fd.Type.Results.List) >= 1 && len(fd.Type.Results.List[0].Names) == 1 {
+		c.acc = fd.Type.Results.List[0].Names[0].Name
+	}
+	return c.block(fd.Body.List, true)
+}
+
 func structFields(files []*ast.File, fset *token.FileSet, typ string) map[string]string {
 	res := map[string]string{}
 	for _, f := range files {
@@ -459,7 +779,7 @@ func codecSkeletons(repo string) string {
 	fset := token.NewFileSet()
 	methods, _, files := parseDir(fset, filepath.Join(repo, "fluent/protocol"))
 	var b strings.Builder
-	b.WriteString("import FluentVerif.Sk.Interp\n/-! GENERATED by /verif/translator (codec.go) from /repo's working tree — do not edit.  Regenerated on every check run.\nThe bodies of the hand-written decoders of fluent/protocol, statement by statement. -/\nnamespace FV.Gen.Codec\nopen FV.Sk\n\n")
+	b.WriteString("import FluentVerif.Sk.Enc\n/-! GENERATED by /verif/translator (codec.go) from /repo's working tree — do not edit.  Regenerated on every check run.\nThe bodies of the hand-written decoders of fluent/protocol, statement by statement. -/\nnamespace FV.Gen.Codec\nopen FV.Sk\n\n")
 	for _, ty := range []struct{ goName, lean string }{{"Message", "Message"}, {"MessageExt", "MessageExt"},
 		{"ForwardMessage", "Forward"}, {"PackedForwardMessage", "Packed"}} {
 		ft := structFields(files, fset, ty.goName)
@@ -474,6 +794,20 @@ func codecSkeletons(repo string) string {
 			body := c.block(fd.Body.List)
 			fmt.Fprintf(&b, "/-- `(*%s).%s`, %s -/\ndef %s : List Stmt := [\n  %s]\n\n", ty.goName, m,
 				fset.Position(fd.Pos()).String()[len(repo)+1:], name, strings.Join(body, ",\n  "))
+		}
+	}
+	b.WriteString("/-! ### encoders -/\n\n")
+	for _, ty := range []struct{ goName, lean string }{{"Message", "Message"}, {"MessageExt", "MessageExt"},
+		{"ForwardMessage", "Forward"}, {"PackedForwardMessage", "Packed"}} {
+		ft := structFields(files, fset, ty.goName)
+		for _, m := range []string{"MarshalMsg", "EncodeMsg"} {
+			fd := methods[ty.goName+"."+m]
+			where := "not found"
+			if fd != nil {
+				where = fset.Position(fd.Pos()).String()[len(repo)+1:]
+			}
+			body := encoderSkeleton(fset, repo, fd, ty.goName, m, ft)
+			fmt.Fprintf(&b, "/-- `(*%s).%s`, %s -/\ndef %s_%s : List EStmt := [\n  %s]\n\n", ty.goName, m, where, ty.lean, m, strings.Join(body, ",\n  "))
 		}
 	}
 	b.WriteString("end FV.Gen.Codec\n")
